@@ -63,6 +63,9 @@ def run(pid, tier, seed, jobs=None, only=None):
             # bounded model checking from the empty book along accepted-request templates (independent of Inv)
             specs = specs + ST.history_templates(tier)
             extra = extra + ['history templates: every denomination an ordinary coin; depth <= %d accepted requests from the empty book' % max(len(h['steps']) for h in ST.history_templates(tier))]
+        if pid == 'C05' and (not only or 'ModifyContract' in only):
+            # "only configured executors can ... change the configuration"
+            specs = specs + [s_ for s_ in ST.specs_for(['ModifyContract'], tier) if sum(f for _, f in s_['mod']) in (0, 1, 8)][:12]
         if pid == 'C05' and not only:
             # the same statement over reachable states only: role lists replaced by accepted configuration changes, then privileged requests
             specs = specs + ST.history_templates(tier, 'C05')
@@ -79,7 +82,8 @@ def run(pid, tier, seed, jobs=None, only=None):
             hs = ST.history_templates(tier, pid)
             specs = specs + hs
             extra = extra + ['reached-state templates (%d): the same obligations on the last request of histories grown from the empty store by instantiate and <= %d accepted '
-                             'requests (1 executor, 1 approver, every denomination an ordinary coin); no state invariant assumed there' % (len(hs), max(len(h['steps']) for h in hs) - 1)]
+                             'requests (1 executor, 1 approver, every denomination an ordinary coin); no state invariant assumed there; at most %d histories per template, depth-first '
+                             '(a template cut short is counted as template_truncated_* in paths_by_outcome)' % (len(hs), max(len(h['steps']) for h in hs) - 1, 600 if tier == 'quick' else 6000)]
         return R.run_check(pid, tier, seed, specs, jobs=jobs, extra_assumptions=extra)
     if pid == 'C06':
         # exits from an arbitrary Inv book + preservation of Inv by every request kind (reduced match shapes: Inv does not depend on the mechanism)
@@ -89,10 +93,20 @@ def run(pid, tier, seed, jobs=None, only=None):
             if s_['ask'] == 'Pending' or (mk and (all(f for _, f in mk) or not any(f for _, f in mk))):
                 specs.append(s_)
         specs = [s_ for s_ in specs if not only or s_['kind'] in only]
-        return R.run_check(pid, tier, seed, specs, opts={'extra': 'then_exit'}, jobs=jobs)
+        extra = []
+        if not only:
+            hs = ST.history_templates(tier, pid)
+            specs = specs + hs
+            extra = ['reached-state templates (%d): exits after partial fills / rejects, a fee-account change and a migration, on histories grown from the empty store' % len(hs)]
+        return R.run_check(pid, tier, seed, specs, opts={'extra': 'then_exit'}, jobs=jobs, extra_assumptions=extra)
     if pid == 'C11':
         specs = [s for s in specs_c11(tier) if not only or s['kind'] in only]
-        rc = R.run_check(pid, tier, seed, specs, jobs=jobs)
+        extra = []
+        if not only:
+            hs = ST.history_templates(tier, pid)
+            specs = specs + hs
+            extra = ['reached-state templates (%d): the same obligations on the last request of histories grown from the empty store' % len(hs)]
+        rc = R.run_check(pid, tier, seed, specs, jobs=jobs, extra_assumptions=extra)
         if tier == 'thorough' and not only:
             rc = kani_second_opinion(pid, rc, harness='update_remaining_amounts_only_accumulates', bounds='one symbolic Action (any kind, optional fee), u64-range operands, unwinding assertions on')
         return rc
